@@ -859,7 +859,6 @@ static const char* scanf_fmtstr(const char* src, char* type)
 
     const char* r; // result
     int ok = (r = try_fmt(src, exp, "%*"PRIi64"h%n", _type, 'h'))
-          || (r = try_fmt(src, exp, "%*d%n", _type, 'i'))
           || (r = try_fmt(src, exp, "%*"PRIi32"i%n", _type, 'i'))
           || (r = try_fmt(src, exp, i32, _type, 'i'))
           || (r = try_fmt(src, exp, "%*lfd%n", _type, 'd'))
@@ -867,7 +866,12 @@ static const char* scanf_fmtstr(const char* src, char* type)
           || (r = try_fmt(src, exp, "%*f%n", _type, 'f'));
     (void)ok;
     if(r == i32)
-        r = "%*x%n";
+    {
+        const char* digits = (*src == '-' || *src == '+') ? src + 1 : src;
+        r = (digits[0] == '0' && (digits[1] == 'x' || digits[1] == 'X'))
+            ? "%*x%n"  // hex: read as unsigned, to allow 0xdeadbeef
+            : "%*i%n"; // decimal or octal
+    }
     return r;
 }
 
